@@ -31,3 +31,38 @@ Theorem C01_one_of_multiplies :
     length (compile_sentence s (SOneOf l vals y)) = length (compile_sentence s y) * length vals.
 Proof. exact one_of_count. Qed.
 Print Assumptions C01_one_of_multiplies.
+
+(* Core fragment, a constraint over one quantified clause ("It is required/prohibited that c X [does not] <verb> d Y."): the
+   ground constraints of the compiled rule hold in exactly the interpretations the sentence admits (prohibited: no pair of a
+   c and a d is related [unrelated]; required: every pair is) -- for every specification, relation, polarity of the clause and
+   of the sentence, universe and interpretation, provided the two labels differ, the interpretation holds exactly the declared
+   values of the two concepts (what the concept facts enforce) and those values belong to the universe.  Partial: one clause,
+   no 'where'. *)
+Theorem C01_single_clause_constraint_partial :
+  forall (s : spec) (U : list string) (I : interp) (cl : clause) (required : bool),
+    cl_slabel cl <> cl_olabel cl ->
+    (forall x, In x U -> holds I (atom_text (cl_subj cl) [x]) = Util.mem_string x (dom_of s (cl_subj cl))) ->
+    (forall y, In y U -> holds I (atom_text (cl_obj cl) [y]) = Util.mem_string y (dom_of s (cl_obj cl))) ->
+    incl (dom_of s (cl_subj cl)) U -> incl (dom_of s (cl_obj cl)) U ->
+    constraints_ok I (flat_map (ground_rule U) (compile_sentence s (SCons required [] [cl] None))) =
+    r_sentence s I (SCons required [] [cl] None).
+Proof. exact one_clause_constraint_correct. Qed.
+Print Assumptions C01_single_clause_constraint_partial.
+
+(* the hypotheses are satisfiable: rooms 1..2, shelf 1, room 1 hosts shelf 1 *)
+Example C01_single_clause_example :
+  let s := {| concepts := [{| c_name := "room"; c_key := "id"; c_dom := DRange 1 2 |}; {| c_name := "shelf"; c_key := "id"; c_dom := DRange 1 1 |}];
+              sentences := [] |} in
+  let cl := {| cl_subj := "room"; cl_slabel := "R"; cl_neg := false; cl_verb := {| v_word := "host"; v_copula := false; v_prep := None |};
+               cl_obj := "shelf"; cl_olabel := "S" |} in
+  let U := ["1"; "2"]%string in
+  let I := ["room(1)"; "room(2)"; "shelf(1)"; "host(1,1)"]%string in
+  cl_slabel cl <> cl_olabel cl /\
+  (forall x, In x U -> holds I (atom_text (cl_subj cl) [x]) = Util.mem_string x (dom_of s (cl_subj cl))) /\
+  (forall y, In y U -> holds I (atom_text (cl_obj cl) [y]) = Util.mem_string y (dom_of s (cl_obj cl))) /\
+  incl (dom_of s (cl_subj cl)) U /\ incl (dom_of s (cl_obj cl)) U /\
+  r_sentence s I (SCons false [] [cl] None) = false /\ r_sentence s I (SCons true [] [cl] None) = false.
+Proof.
+  cbv zeta. repeat split; try (intros x [<-|[<-|[]]]; vm_compute; reflexivity); try discriminate;
+    try (intros x Hx; vm_compute in Hx; vm_compute; tauto); vm_compute; reflexivity.
+Qed.
